@@ -428,6 +428,12 @@ def instClash (P : Project) (d : Decl) (n : Name) : Bool :=
   (d.scope == 0 && P.decls.any (fun c => c.kind == .inst && (eqv c.name n || eqv c.name d.name))) ||
   (d.kind == .inst && P.decls.any (fun c => c.scope == 0 && c.id != d.id && (eqv c.name n || eqv c.name d.name)))
 
+/-- After the rename another file declares a global symbol of the same name: the analysis of each file
+stays consistent (own symbols win over imported ones, no occurrence changes its binding) but the project
+now has two POUs / types / globals of one name, which the compiler rejects. -/
+def xfileDup (P : Project) (d : Decl) (n : Name) : Bool :=
+  d.scope == 0 && P.decls.any (fun c => c.scope == 0 && c.file != d.file && eqv c.name n)
+
 /-- indices of type-name occurrences whose plain scope lookup finds a non-type symbol (a variable
 named like the type): `resolve_type_symbol` falls back to the type table, the unused-symbol pass does not -/
 def typeShadowed (P : Project) : List Nat :=
